@@ -162,3 +162,20 @@ def tlc_mc(module, cfg, workers=8, xmx="8g", timeout=3600, expect_violation=None
         raise ToolError("model checking of %s failed (the model itself, independent of /repo):\n%s"
                         % (cfg, "\n".join(out.splitlines()[-40:])))
     return res
+
+
+def run_bfs(exe, spec, workdir, max_states, per_file):
+    """breadth-first exploration of the real state graph; returns ([(trace, specpath)...], info)"""
+    sp = workdir + "/spec.bfs.json"
+    with open(sp, "w") as f:
+        json.dump(spec, f)
+    root = workdir + "/bfsroot"
+    p = subprocess.run([exe, "bfs", root, sp, workdir + "/bfs_", str(max_states), str(per_file)],
+                       stdout=subprocess.PIPE, stderr=subprocess.PIPE, text=True)
+    shutil.rmtree(root, ignore_errors=True)
+    if p.returncode != 0:
+        raise ToolError("harness bfs failed: %s" % (p.stderr or p.stdout)[-600:])
+    info = json.loads(p.stdout.strip().splitlines()[-1])
+    info["kind"] = spec.get("kind")
+    files = sorted(f for f in os.listdir(workdir) if f.startswith("bfs_") and f.endswith(".ndjson"))
+    return [(workdir + "/" + f, sp) for f in files], info
